@@ -41,7 +41,7 @@ PROPS = {
         "design_ref": "DESIGN.md §3.14 FRESHNAME/PREC, §3.21, §4 C17",
     },
     "C02": {
-        "rules": ["EXH", "PREC", "DIVMOD", "FRESHNAME", "SCALARREF", "WINDOWHOOK", "BACKPIPE", "WINALIAS@live", "FREEONCE"],
+        "rules": ["EXH", "PREC", "DIVMOD", "ALGID", "FRESHNAME", "SCALARREF", "WINDOWHOOK", "BACKPIPE", "WINALIAS@live", "FREEONCE"],
         "thorough": [],
         "technique": "static analysis: exhaustive-lowering, C-precedence table embedding, sign-proof dominance for / and %, sibling agreement on by-reference scalars, window-hook call rule",
         "level_text": "Structural clauses of code generation, decided for all programs from the source: lowering dispatches are exhaustive; the C "
@@ -70,7 +70,7 @@ PROPS = {
         "design_ref": "DESIGN.md §3.14, §4 C15",
     },
     "C08": {
-        "rules": ["WINALIAS@live", "ALIASCLOSED", "FREEONCE", "MEMPAIR", "CONSTQ", "DIVMOD", "EXH", "BACKPIPE"],
+        "rules": ["WINALIAS@live", "ALIASCLOSED", "FREEONCE", "MEMPAIR", "CONSTQ", "DIVMOD", "ALGID", "EXH", "BACKPIPE"],
         "thorough": [],
         "technique": "static analysis: alias-closure of liveness, typestate on the pending-free list, allocator/deallocator pairing per Memory class (MRO-resolved), const-from-write-analysis",
         "level_text": "Structural clauses: buffer liveness is closed under window aliasing (no free before a use through a window); each allocation registers one "
@@ -176,7 +176,7 @@ PROPS = {
         "design_ref": "DESIGN.md §3.19, §4 C19",
     },
     "C12": {
-        "rules": ["NAMECONF", "DELGUARD", "MODGUARD", "CONDSPEC", "EXH", "TRAV@C12"],
+        "rules": ["NAMECONF", "DELGUARD", "MODGUARD", "ALGID", "CONDSPEC", "EXH", "TRAV@C12"],
         "thorough": [],
         "technique": "static analysis: identity-by-printed-name rule with triaged site table; dominance (must-facts with branch conditions) of literal tests over every delete/move in simplify; exhaustiveness/traversal of the two rewriters",
         "level_text": "Structural clauses: every place where simplify (or a rewrite it relies on) decides expression identity through printed names is enumerated and classified; "
